@@ -486,7 +486,9 @@ def rewrite_function(fn, cut_loops=(), extra_globals=None, route=True):
         tmp = tmp.__func__
     if tmp.__code__.co_freevars:
         old = dict(zip(fn.__code__.co_freevars, fn.__closure__ or ()))
-        cells = tuple(old[v] for v in tmp.__code__.co_freevars)
+        # a method that mentions its own class by name sees the dummy class as a free variable:
+        # bind it to the real class from the module globals
+        cells = tuple(old[v] if v in old else types.CellType(g.get(v)) for v in tmp.__code__.co_freevars)
     else:
         cells = None
     new = types.FunctionType(tmp.__code__, g, fn.__name__, fn.__defaults__, cells)
